@@ -435,7 +435,7 @@ func TestChains(t *testing.T) {
 	}
 	defer x.s.Close(5 * time.Second)
 	cs := calls()
-	n := harness.PerShard(harness.Scale(60_000, 4_000_000))
+	n := harness.PerShard(harness.Scale(60_000, 40_000_000))
 	harness.Check(t, sub, n, func(rt *rapid.T) Case {
 		c := Case{SCols: 6, SRows: 4}
 		depth := rapid.IntRange(1, 4).Draw(rt, "depth")
